@@ -299,10 +299,11 @@ Qed.
 Lemma o82_scan_total : forall fuel i pkt ex,
   (N.to_nat (lenN pkt - i) < fuel)%nat -> safe (o82_scan fuel i pkt ex).
 Proof. fuel_ind fuel. intros i pkt ex Hf. cbn [o82_scan]. safe_tac; apply IH; lia. Qed.
-Definition scan_post (pkt : bytes) (r : option N * list (N * N)) : Prop :=
+Definition scan_post (pkt : bytes) (r : scan_end * list (N * N)) : Prop :=
   match fst r with
-  | Some ei => ei < lenN pkt /\ ranges_ok ei (snd r)
-  | None => ranges_ok (lenN pkt) (snd r)
+  | EEnd ei => ei < lenN pkt /\ ranges_ok ei (snd r)
+  | ECut ci => ci < lenN pkt /\ ranges_ok ci (snd r)
+  | EAll => ranges_ok (lenN pkt) (snd r)
   end.
 Lemma o82_scan_inv : forall fuel i pkt ex r,
   o82_scan fuel i pkt ex = Ok r -> i <= lenN pkt -> ranges_ok i ex -> scan_post pkt r.
@@ -317,34 +318,46 @@ Proof.
   destruct (c =? 255) eqn:E2.
   { apply Ok_inj in H; subst; cbn [fst snd]. split; [lia|exact Hex]. }
   destruct (lenN pkt <=? i + 1) eqn:E3.
-  { apply Ok_inj in H; subst; cbn [fst snd]. eapply ranges_ok_mono; [|exact Hex]. lia. }
+  { apply Ok_inj in H; subst; cbn [fst snd]. split; [lia|exact Hex]. }
   destruct (idx (i + 1) pkt) as [ol| | |] eqn:Eo; cbn [rbind] in H; try discriminate H.
   destruct (lenN pkt <? i + 2 + ol) eqn:E4.
-  { apply Ok_inj in H; subst; cbn [fst snd]. eapply ranges_ok_mono; [|exact Hex]. lia. }
+  { apply Ok_inj in H; subst; cbn [fst snd]. split; [lia|exact Hex]. }
   eapply (IH _ _ _ _ H); [lia|].
   destruct (c =? 82).
   - cbn [ranges_ok]. repeat split; try lia. exact Hex.
   - eapply ranges_ok_mono; [|exact Hex]. lia.
 Qed.
-(* what the scan found can be removed and leaves room for the End offset: no int underflow in
-   `endIdx -= r[1]-r[0]` *)
+(* the packet InsertOption82 works on after the walk (cut at a trailing fragment) and the End offset in it: what the scan
+   found can be removed from it and leaves room for the End offset: no int underflow in `endIdx -= r[1]-r[0]` *)
+Definition cut_len (pkt : bytes) (e : scan_end) : N := match e with ECut i => i | _ => lenN pkt end.
+Definition end_off (pkt : bytes) (e : scan_end) : N := match e with EEnd i => i | _ => cut_len pkt e end.
 Lemma o82_scan_ranges pkt r :
   o82_scan (S (length pkt)) 240 pkt [] = Ok r -> 240 <= lenN pkt ->
-  ranges_ok (lenN pkt) (snd r) /\
-  ranges_total (snd r) <= match fst r with Some e => e | None => lenN pkt end /\
-  match fst r with Some e => e | None => lenN pkt end <= lenN pkt.
+  cut_len pkt (fst r) <= lenN pkt /\
+  ranges_ok (cut_len pkt (fst r)) (snd r) /\
+  ranges_total (snd r) <= end_off pkt (fst r) /\ end_off pkt (fst r) <= cut_len pkt (fst r).
 Proof.
   intros H Hl. apply o82_scan_inv in H; [|lia|exact I]. unfold scan_post in H.
-  destruct (fst r) as [ei|].
-  - destruct H as [H1 H2]. repeat split; [eapply ranges_ok_mono; [|exact H2]; lia|apply ranges_total_le; exact H2|lia].
-  - repeat split; [exact H|apply ranges_total_le; exact H|lia].
+  destruct (fst r) as [ei|ci|]; cbn [cut_len end_off].
+  - destruct H as [H1 H2]. repeat split; try lia; [eapply ranges_ok_mono; [|exact H2]; lia|apply ranges_total_le; exact H2].
+  - destruct H as [H1 H2]. repeat split; try lia; [exact H2|apply ranges_total_le; exact H2].
+  - repeat split; try lia; [exact H|apply ranges_total_le; exact H].
 Qed.
 
 Lemma insert_option82_total pkt opt82 policy : safe (insert_option82 pkt opt82 policy).
 Proof.
   unfold insert_option82. destruct (lenN pkt <? 240) eqn:E; [reflexivity|].
   apply safe_bind; [apply o82_scan_total; unfold lenN; lia|]. intros r Hs.
-  apply o82_scan_ranges in Hs; [|lia]. destruct Hs as (H1 & H2 & H3). cbv zeta.
+  apply o82_scan_ranges in Hs; [|lia]. destruct Hs as (H0 & H1 & H2 & H3).
+  apply safe_bind.
+  { destruct (fst r); try reflexivity. cbn [cut_len] in H0. apply safe_sl; lia. }
+  intros pkt1 Hp1.
+  assert (Hlen : lenN pkt1 = cut_len pkt (fst r)).
+  { destruct (fst r) as [ei|ci|]; cbn [cut_len] in *; try (apply Ok_inj in Hp1; subst; reflexivity).
+    apply sl_len in Hp1. lia. }
+  assert (Hend : match fst r with EEnd e => e | _ => lenN pkt1 end = end_off pkt (fst r)).
+  { destruct (fst r); cbn [end_off cut_len] in *; lia. }
+  cbv zeta. rewrite Hend. rewrite <- Hlen in H1, H3.
   destruct ((policy =? 1) && negb match snd r with [] => true | _ :: _ => false end); [reflexivity|].
   destruct (policy =? 2); [apply remove_ranges_total; exact H1|].
   apply safe_bind; [apply remove_ranges_total; exact H1|]. intros p Hp.
@@ -354,7 +367,8 @@ Lemma strip_option82_total pkt : safe (strip_option82 pkt).
 Proof.
   unfold strip_option82. destruct (lenN pkt <? 240) eqn:E; [reflexivity|].
   apply safe_bind; [apply o82_scan_total; unfold lenN; lia|]. intros r Hs.
-  apply o82_scan_ranges in Hs; [|lia]. apply remove_ranges_total. apply Hs.
+  apply o82_scan_ranges in Hs; [|lia]. destruct Hs as (H0 & H1 & _).
+  apply remove_ranges_total. eapply ranges_ok_mono; [|exact H1]. exact H0.
 Qed.
 
 Lemma find_opt_loop_total : forall fuel i pkt code,
